@@ -176,17 +176,27 @@ func init() {
 					if _, err = rules.NewNetworkRule(withBadfilter(x), 1); err != nil {
 						continue
 					}
+					if k := strings.Index(x, "^$"); k >= 0 {
+						if _, err = rules.NewNetworkRule(x[:k+2]+"badfilter,"+x[k+2:], 1); err != nil {
+							continue
+						}
+					}
 					extraKeys[fieldsKey(xr)] = true
 					// the same rule may come from several lists: more copies of x than of its $badfilter twin (and the
 					// other way round) — one twin disables every copy
-					group := []string{x, withBadfilter(x)}
+					twin := withBadfilter(x)
+					if k := strings.Index(x, "^$"); k >= 0 && strings.HasSuffix(x[:k], "example.org") && g.Chance(1, 3) {
+						// the twin may spell its modifiers in another order: badfilter first
+						twin = x[:k+2] + "badfilter," + x[k+2:]
+					}
+					group := []string{x, twin}
 					if g.Chance(1, 3) {
 						for c := 1 + g.Intn(2); c > 0; c-- {
 							group = append(group, x)
 						}
 					}
 					if g.Chance(1, 5) {
-						group = append(group, withBadfilter(x))
+						group = append(group, twin)
 					}
 					for _, t := range group {
 						p := g.Intn(len(els) + 1)
